@@ -4,6 +4,7 @@ import itertools
 import numpy as np
 
 from .. import core, symbols
+from ..translate import spectral as tr_spectral
 
 ID = "C04"
 PROPS_FILE = "C04"
@@ -12,8 +13,16 @@ RULE = ("correspondence (exact, exhaustive over every array element): build_wave
         "witness (float): ifft(fft(u)) = u on white noise, a sampled cosine with EVERY wavenumber vector of the layout x phases appears in exactly the named stored mode(s) with the "
         "promised magnitude/phase (brute-force expectation), get_fourier_coefficients in all modes, derivative / interpolation / incompressible projection run with indexing='xy'. "
         "Non-trivial: every element (both values of each mask are hit); distinct by input hash.")
+TRUSTED_EXTRA = ["harness/translate/spectral.py: symbolic execution of the layout functions of exponax/_spectral.py (contracts: fftfreq/rfftfreq values, meshgrid ij/xy axis order, [x]*m+[y] and [::-1] on lists, integer form of norm<=cutoff, Python //, % and slice semantics)"]
 ASSUMPTIONS = ["jnp.fft.rfftn/irfftn = DFT with exp(-2 pi i/N) restricted to the half spectrum; jnp.fft.fftfreq/rfftfreq, meshgrid, linspace, pad(mode='wrap') as documented by NumPy"]
 MODES = {"norm_compensation": 10, "reconstruction": 11, "coef_extraction": 12}
+
+
+def translate(ctx):
+    """Gen/SpectralGen.v: the layout functions of exponax/_spectral.py re-translated from the source (tied to Layout/Freq.v by
+    Tie/SpectralTie.v and the theorems C04_code_layout_is_model_layout / C04_code_scaling_and_slices_are_model); on failure the file
+    is replaced by a stub, so that the proof cannot use a stale text"""
+    tr_spectral.run()
 
 
 def _ex():
